@@ -11,7 +11,7 @@ import os
 import subprocess
 from collections import Counter
 
-from .. import leanproj, pipeline, corr, evalcorr, gen
+from .. import ownmodel, leanproj, pipeline, corr, evalcorr, gen
 from ..common import Rng, seed, CACHE, VERIF, run
 from ..corr import build_model
 from . import C01, C08
@@ -246,6 +246,9 @@ def check(res, tier):
             res.violation("ledger-corr:%s:%s" % (kind, hash(str(t)) % 10 ** 8), "the C ledger says %r, the Lean ledger %r on a %s trace of %s" % (cv, mv, kind, lab),
                           {"trace": [" ".join(x) for x in t][:400], "c_ledger": cv, "lean_ledger": mv, "kind": "correspondence",
                            "theorem": "Props/C05.lean (all theorems are about DDP.Ledger.step/run)"})
+    # the ownership model of the code generator (DDP.Own): the calls it predicts per function vs the IR of kddp -O 0
+    own_st = ownmodel.stage(res, ddp, model, sd + 977, 60 if quick else 1200)
+    res.extra["own_model"] = own_st
     for bk in broken:
         res.violation("obligation:" + bk["name"], "proof obligation no longer checks: %s" % bk["name"],
                       {"theorem": bk["name"], "detail": bk["detail"], "kind": "broken-obligation"}, has_input=False)
